@@ -201,7 +201,7 @@ def run(tier: str, seed: int) -> CompResult:
                 if not fname_ok or w2.lineno != wm.lineno or kw["nodeid"] != f"t_{i}.py::test":
                     res.violations.append(Violation("C14", "pure.warnings", f"file/line/test id changed: {w2.filename}:{w2.lineno} {kw['nodeid']}",
                                                     "warning-location-changed", [line], {}))
-                if category is not None and imp_cat and (rebuild != "other") and imp_msg and w2.category is not category and w2.category.__name__ != category.__name__:
+                if category is not None and imp_cat and (rebuild != "other") and imp_msg and w2.category is not category and (w2.category is None or w2.category.__name__ != category.__name__):
                     res.violations.append(Violation("C14", "pure.warnings", f"category {category.__name__} arrived as {w2.category}",
                                                     "warning-category-changed", [line], {}))
             lines.append(line)
